@@ -3,9 +3,14 @@
    TRACE_FILE = JSON array of traces, a trace = array of events; every event is judged on its
    own (events carry their inputs).  Event kinds (field op):
 
-   "helpers"  A, M, sc = [[go, ge, terminal]..], names; obs = codes, gapped, symbols, tfs, fasta{seqs,tr},
+   "helpers"  A, kinds (AlignConv!Kinds name of every row), M, sc = [[go, ge, terminal]..] (empty when the rows'
+              alphabets admit no common matrix); obs = codes, gapped / symbols (rows of characters, gap "-"),
+              str (blocks of rows of characters), tfs, fasta{seqs (characters), tr},
               term [oc,start,stop], rterm [oc,tr], rgaps tr, ident [[oc,num,den] x3],
               pident [[oc, [[ [num,den].. ].. ]] x3], score [[oc,val]..]
+   "fasta_r"  G (FASTA text as a token matrix: code, Gap, AltChar(k)), gc (additional_gap_chars as tokens),
+              form ("tuple" | "list" | "str" | "default" = option not passed); obs = [oc, seqs, tr],
+              obs2 = [oc, seqs, tr] after set_alignment + get_alignment with the same option
    "index"    A, cidx, ridx (ridx = ["none", []] for alignment[cidx]); obs = [oc, seqs, tr]
    "cigar_w"  A, o; pos, stored (inputs of the read-back chosen by the driver);
               obs = [oc, ops], obs2 = ops parsed from the string form, back = [oc, seqs, tr]
@@ -18,7 +23,7 @@
 
    Disagreements: PrintT(<<"MISMATCH", tid, l, flags, expected>>); diagnostics that carry no verdict:
    PrintT(<<"DIAG", tid, l, what>>). *)
-EXTENDS Cigar, ProgressiveMsa, Json, IOUtils, TLC
+EXTENDS Cigar, ProgressiveMsa, AlignConv, Json, IOUtils, TLC
 
 Tr == JsonDeserialize(IOEnv.TRACE_FILE)
 
@@ -39,32 +44,52 @@ JudgeHelpers(e) ==
       dom == Dom_RowsPresent(A)
       f == FindTerminalGaps(A)
       rt == RemoveTerminalGaps(A)
+      AA == AlnK(e.A.seqs, e.A.tr, e.kinds)             \* every row with its own alphabet
       back == FromGapped(Codes(A))
-      okValid  == ValidTrace(A)                           \* generator sanity: inputs are in the domain
-      okCodes  == o.codes = Codes(A) /\ o.gapped = Codes(A) /\ o.symbols = Codes(A)
+      okValid  == ValidTrace(A) /\ Dom_Kinds(AA)          \* generator sanity: inputs are in the domain
+      okCodes  == /\ o.codes = Codes(A)
+                  /\ o.gapped = GappedStrings(AA) /\ o.symbols = Symbols(AA)
+                  /\ o.str = StrBlocks(GappedStrings(AA), StrWidth)
       okTfs    == NRows(A) >= 2 => o.tfs = back.tr
-      okFasta  == NCols(A) >= 1 => (o.fasta.seqs = back.seqs /\ o.fasta.tr = back.tr)
+      okFasta  == (NCols(A) >= 1 /\ Dom_FastaStable(AA)) =>
+                    (o.fasta.seqs = ThroughFasta(AA).seqs /\ o.fasta.tr = back.tr)
       okTerm   == dom => o.term = <<f.oc, f.start, f.stop>>
       okRterm  == dom => (IF rt.oc = "EmptyOrRejected" THEN o.rterm[1] = "Rejected" \/ o.rterm = <<"ok", <<>>>>
                           ELSE o.rterm[1] = rt.oc /\ (rt.oc = "ok" => o.rterm[2] = rt.A.tr))
       okRgaps  == o.rgaps = RemoveGaps(A).tr
-      okIdent  == dom => \A k \in 1..3 : FracEq(o.ident[k], Identity(A, ModeSeq[k]))
-      okPident == dom /\ NCols(A) >= 1 =>
+      okIdent  == dom /\ Dom_CodesMeanSymbols(AA) => \A k \in 1..3 : FracEq(o.ident[k], Identity(A, ModeSeq[k]))
+      okPident == dom /\ Dom_CodesMeanSymbols(AA) /\ NCols(A) >= 1 =>
                     \A k \in 1..3 :
                       LET p == PairwiseIdentity(A, ModeSeq[k]) IN
                       /\ o.pident[k][1] = p.oc
                       /\ p.oc = "ok" => \A i, j \in 1..NRows(A) :
                                           o.pident[k][2][i][j][1] * p.m[i][j][2] = p.m[i][j][1] * o.pident[k][2][i][j][2]
-      okScore  == dom => \A k \in DOMAIN e.sc :
+      okScore  == dom /\ Dom_ScoreKinds(AA) => \A k \in DOMAIN e.sc :
                            LET s == Score(A, e.M, e.sc[k][1], e.sc[k][2], e.sc[k][3]) IN
                            o.score[k][1] = s[1] /\ (s[1] = "ok" => o.score[k][2] = s[2])
       flags == <<okValid, okCodes, okTfs, okFasta, okTerm, okRterm, okRgaps, okIdent, okPident, okScore>>
   IN IF okValid /\ okCodes /\ okTfs /\ okFasta /\ okTerm /\ okRterm /\ okRgaps /\ okIdent /\ okPident /\ okScore THEN TRUE
      ELSE PrintT(<<"MISMATCH", tid, l + 1, flags,
-                   [codes |-> Codes(A), back |-> back, term |-> <<f.oc, f.start, f.stop>>,
+                   [codes |-> Codes(A), syms |-> Symbols(AA), back |-> back, term |-> <<f.oc, f.start, f.stop>>,
                     rterm |-> <<rt.oc, rt.A.tr>>, rgaps |-> RemoveGaps(A).tr,
                     ident |-> [k \in 1..3 |-> Identity(A, ModeSeq[k])],
-                    score |-> [k \in DOMAIN e.sc |-> Score(A, e.M, e.sc[k][1], e.sc[k][2], e.sc[k][3])]]>>)
+                    score |-> IF dom /\ Dom_ScoreKinds(AA)
+                                THEN [k \in DOMAIN e.sc |-> Score(A, e.M, e.sc[k][1], e.sc[k][2], e.sc[k][3])] ELSE <<>>]>>)
+
+(* ------------------------------------------------------------------ FASTA reader with its option *)
+JudgeFastaR(e) ==
+  LET gc == IF e.form = "default" THEN DefaultGapChars ELSE e.gc
+      r == FromFastaOpt(e.G, gc)
+      dom == Dom_FastaText(e.G, gc)
+      both == dom /\ r.oc = "ok" /\ e.obs[1] = "ok"
+      okOc == dom => e.obs[1] = r.oc
+      \* the parsed alignment: the text's symbols, a valid trace
+      okA == both => (e.obs[2] = r.A.seqs /\ e.obs[3] = r.A.tr /\ ValidTrace(Aln(e.obs[2], e.obs[3])))
+      \* FASTA and back: the same alignment again
+      okAgain == both => e.obs2 = <<"ok", r.A.seqs, r.A.tr>>
+      flags == <<okOc, okA, okAgain>>
+  IN IF okOc /\ okA /\ okAgain THEN TRUE
+     ELSE PrintT(<<"MISMATCH", tid, l + 1, flags, <<r.oc, r.A.seqs, r.A.tr, dom>>>>)
 
 (* ------------------------------------------------------------------ indexing *)
 JudgeIndex(e) ==
@@ -138,6 +163,7 @@ JudgeMsaExc(e) ==
 
 Judge(e) ==
   CASE e.op = "helpers" -> JudgeHelpers(e)
+    [] e.op = "fasta_r" -> JudgeFastaR(e)
     [] e.op = "index"   -> JudgeIndex(e)
     [] e.op = "cigar_w" -> JudgeCigarW(e)
     [] e.op = "cigar_r" -> JudgeCigarR(e)
